@@ -210,6 +210,9 @@ func (vc *VC) unsupported(format string, a ...interface{}) {
 
 // oblige records a proof obligation: under the assumptions so far, cond ⇒ goal.
 func (vc *VC) oblige(name, kind, cond, goal, detail string, pos string) *Obligation {
+	if vc.contract != nil && vc.contract.FrameOnly && (kind == "safety" || kind == "pre") {
+		return nil // assumed, not checked (frameonly contract)
+	}
 	full := vc.fkey + vc.tag + "#" + name
 	vc.oblNames[full]++
 	if n := vc.oblNames[full]; n > 1 {
